@@ -120,7 +120,7 @@ func init() {
 			return StrV{s: strconv.Quote(s.s)}
 		},
 		"strings.ToLower": func(ex *Exec, a []Value, fr *Frame, pos token.Pos) Value {
-			s := a[0].(StrV)
+			s := ex.byteForm(a[0].(StrV))
 			if s.sym == nil {
 				return StrV{s: strings.ToLower(s.s)}
 			}
@@ -177,7 +177,7 @@ func init() {
 		"strings.IndexByte":  (*Exec).indexByte,
 		"internal/bytealg.IndexByteString": (*Exec).indexByte,
 		"strings.TrimSpace": func(ex *Exec, a []Value, fr *Frame, pos token.Pos) Value {
-			s := a[0].(StrV)
+			s := ex.byteForm(a[0].(StrV))
 			if s.sym == nil {
 				return StrV{s: strings.TrimSpace(s.s)}
 			}
@@ -371,7 +371,7 @@ func (ex *Exec) regexpMatch(a []Value, fr *Frame, pos token.Pos) Value {
 
 func (ex *Exec) regexpFindSubmatch(a []Value, fr *Frame, pos token.Pos) Value {
 	re := ex.regexpOf(a[0], fr, pos)
-	s := a[1].(StrV)
+	s := ex.byteForm(a[1].(StrV))
 	if s.sym == nil {
 		return ex.strSliceValue(re.FindStringSubmatch(s.s))
 	}
@@ -811,6 +811,9 @@ func (ex *Exec) strconvError(fnName string, s string, why string) IfaceV {
 
 func (ex *Exec) parseInt(a []Value, fr *Frame, pos token.Pos) Value {
 	s := a[0].(StrV)
+	if s.sym != nil && s.sym.kind == symConcat {
+		s = ex.byteForm(s)
+	}
 	base := ex.concInt(a[1], "ParseInt base")
 	bitSize := ex.concInt(a[2], "ParseInt bitSize")
 	unsigned := fr != nil && false
